@@ -213,6 +213,11 @@ def build_corpus(app):
     s.mk('p4', 'p2')
     s.do(op='rc_post', v=39, name='CUSTOM_RC3')
     s.do(op='trait_put', v=39, name='CUSTOM_T3')
+    # a provider nobody uses, with inventory, traits and aggregates of its own
+    s.mk('p6')
+    s.invs('p6', VCPU=2, DISK_GB=10)
+    s.do(op='rp_traits_put', v=39, u='p6', gen=s.gen('p6'), traits=['CUSTOM_T1', 'HW_CPU_X86_AVX'])
+    s.do(op='agg_put', v=39, u='p6', gen=s.gen('p6'), aggs=['agg1', 'agg2'])
     app.snapshot('fbase')
     env = dict(trace.ENV)
     g = s.gen
@@ -265,6 +270,7 @@ def build_corpus(app):
     add('re-parent a subtree', op='rp_update', v=39, u='p2', name='p2-moved', parent='p3')
     add('un-parent', op='rp_update', v=39, u='p4', name='p4', parent='null')
     add('delete provider', op='rp_delete', v=39, u='p4')
+    add('delete provider with inventories, traits and aggregates', op='rp_delete', v=39, u='p6')
     add('create class (POST)', op='rc_post', v=39, name='CUSTOM_RC1')
     add('create class (PUT)', op='rc_put', v=39, name='CUSTOM_RC2', newname='')
     add('rename class', op='rc_put', v=6, name='CUSTOM_RC3', newname='CUSTOM_RC4')
